@@ -1057,7 +1057,8 @@ def rule_py_keepdims_recombine(rep, floor=3):
 
 def rule_py_record_field_trim(rep, floor=4):
     r = rep.rule("TRIM.py-record-field", "(a) wherever the Python layer takes `R.field(k)` of a layout R known to be a RecordArray (under isinstance(R, recordtypes / RecordArray)) the result is cut to the record array's own length "
-                 "(`R.field(k)[: len(R)]`): field() hands out the stored content, which may be longer than the array; (b) a division or modulo by `X.size` sits under a test of `X.size`: a RegularArray may have size 0", floor=floor)
+                 "(`R.field(k)[: len(R)]`): field() hands out the stored content, which may be longer than the array; (b) a division or modulo by `X.size` sits under a test of `X.size`: a RegularArray may have size 0; "
+                 "(c) a `while isinstance(v, RegularArray)` descent steps with `v = v.content[: len(v) * v.size]`; (d) a RegularArray is never measured by len(v.content)", floor=floor)
     table = load_table("py_recordfield_exceptions.json")
     for rel in [x for x in pf.all_modules() if "generated_parser" not in x]:
         m = pf.module(rel)
@@ -1091,6 +1092,27 @@ def rule_py_record_field_trim(rep, floor=4):
                 k += 1
                 guarded = any(recv in ast.unparse(t) for t, _ in pf.enclosing_tests(c))
                 r.check(guarded, "%s:%s:%s#%d" % (rel, getattr(_owner_func(c), "name", "<module>"), recv, k), m.where(c), "%s in %s divides by `%s` without testing it: a RegularArray of size 0 raises ZeroDivisionError" % (getattr(_owner_func(c), "name", "<module>"), rel, recv), detail="under a test of %s" % recv)
+    # (c), (d) RegularArray: the reachable part of the content is len(X) * X.size
+    for rel in [x for x in pf.all_modules() if "generated_parser" not in x and not x.startswith("_connect/_numba")]:
+        m = pf.module(rel)
+        k = 0
+        for n in ast.walk(m.tree):
+            if isinstance(n, ast.While) and "isinstance(" in ast.unparse(n.test) and "RegularArray" in ast.unparse(n.test):
+                mm = re.search(r"isinstance\((\w+), ak\.layout\.RegularArray\)", ast.unparse(n.test))
+                if not mm:
+                    continue
+                v = mm.group(1)
+                for a_ in ast.walk(n):
+                    if isinstance(a_, ast.Assign) and len(a_.targets) == 1 and isinstance(a_.targets[0], ast.Name) and a_.targets[0].id == v and ".content" in ast.unparse(a_.value):
+                        k += 1
+                        want = "%s.content[:len(%s) * %s.size]" % (v, v, v)
+                        r.check(ast.unparse(a_.value) == want, "%s:%s:descent#%d" % (rel, getattr(_owner_func(n), "name", "<module>"), k), m.where(a_), "%s descends through RegularArrays with `%s`: the content may be longer than length * size, so what is reshaped or measured below includes unreachable items" % (
+                            rel, ast.unparse(a_)), detail=want)
+            if isinstance(n, ast.Call) and isinstance(n.func, ast.Name) and n.func.id == "len" and n.args and isinstance(n.args[0], ast.Attribute) and n.args[0].attr == "content" and isinstance(n.args[0].value, ast.Name):
+                v = n.args[0].value.id
+                if any(inb and ("isinstance(%s, ak.layout.RegularArray)" % v) in ast.unparse(t_) for t_, inb in pf.enclosing_tests(n)):
+                    k += 1
+                    r.fail("%s:%s:len(%s.content)#%d" % (rel, getattr(_owner_func(n), "name", "<module>"), v, k), m.where(n), "%s measures a RegularArray by `len(%s.content)`: its extent is len(%s) * %s.size (the content may be longer)" % (rel, v, v, v))
     return r.done()
 
 
@@ -1591,4 +1613,173 @@ def rule_py_regular_length(rep, floor=20):
                         bad = txt
             r.check(bad is None, "%s:%s#regular%d" % (rel, getattr(_owner_func(c), "name", "<module>"), k), m.where(c), "%s builds `%s` with zeros_length %s = `%s`: that measures the flattened contents, not the number of lists" % (
                 rel, ast.unparse(c)[:60], ast.unparse(a), (bad or "")[:70]), detail="outer length")
+    return r.done()
+
+
+def rule_py_index_extent(rep, floor=4):
+    r = rep.rule("BOUND.py-index-extent", "in the converters (operations/convert.py) the extent of content needed by a selection of index values V (`V = index[tags == i]`, `V = array_index[...]`) is max(V) + 1: "
+                 "an expression that sizes or slices the content with `len(V)` or `V[-1]` is accepted only in a comparison, in an arm that first projects the content through V (`content = content[V]`), or, for V[-1], under a test of the sparse mode (where the index is arange and therefore increasing) - "
+                 "index values of a sliced, repeated or reordered union are not 0..n-1", floor=floor)
+    m = pf.module("operations/convert.py")
+    for q, fd in sorted(m.funcs.items()):
+        if "." in q and q.split(".")[0] in m.funcs and False:
+            continue
+        sel = {}
+        for s_ in ast.walk(fd):
+            if isinstance(s_, ast.Assign) and len(s_.targets) == 1 and isinstance(s_.targets[0], ast.Name) and _owner_func(s_) is fd:
+                v = s_.value
+                if isinstance(v, ast.Subscript) and isinstance(v.value, ast.Name) and "index" in v.value.id and not isinstance(v.slice, (ast.Slice, ast.Constant)):
+                    sel[s_.targets[0].id] = s_
+        if not sel:
+            continue
+        k = 0
+        for V in sorted(sel):
+            for n in ast.walk(fd):
+                bad = None
+                if isinstance(n, ast.Call) and isinstance(n.func, ast.Name) and n.func.id == "len" and n.args and isinstance(n.args[0], ast.Name) and n.args[0].id == V:
+                    bad = "len(%s)" % V
+                elif isinstance(n, ast.Subscript) and isinstance(n.value, ast.Name) and n.value.id == V and isinstance(n.slice, ast.UnaryOp) and isinstance(n.slice.op, ast.USub):
+                    bad = "%s[-1]" % V
+                if bad is None or _owner_func(n) is not fd:
+                    continue
+                par = getattr(n, "_parent", None)
+                if isinstance(par, ast.Compare):
+                    continue    # `len(V) == 0`: an emptiness test, not an extent
+                k += 1
+                ok = False
+                # the content is projected through V in the same arm (`content = content[V]`): afterwards its length IS len(V)
+                for p_ in pf.parent_chain(n):
+                    for fld in ("body", "orelse"):
+                        b_ = getattr(p_, fld, None)
+                        if isinstance(b_, list) and any(n is x for st in b_ for x in ast.walk(st)):
+                            if any(isinstance(a_, ast.Assign) and isinstance(a_.value, ast.Subscript) and isinstance(a_.value.slice, ast.Name) and a_.value.slice.id == V for st in b_ for a_ in ast.walk(st)):
+                                ok = True
+                    if isinstance(p_, (ast.FunctionDef, ast.For)):
+                        break
+                if bad.endswith("[-1]"):
+                    ok = ok or any("sparse" in ast.unparse(t) and inb for t, inb in pf.enclosing_tests(n))
+                r.check(ok, "%s:%s#%d" % (q, bad, k), m.where(n), "%s sizes content with `%s`, where %s = `%s` is a selection of index values: the content must reach max(%s) + 1" % (q, bad, V, ast.unparse(sel[V].value)[:40], V), detail="max + 1, or increasing by construction")
+            k += 1
+            uses_max = any(isinstance(n, ast.Call) and ((isinstance(n.func, ast.Attribute) and n.func.attr in ("max", "unique")) or (isinstance(n.func, ast.Name) and n.func.id == "max")) and V in {x.id for x in ast.walk(n) if isinstance(x, ast.Name)} for n in ast.walk(fd))
+            r.check(uses_max, "%s:%s:max" % (q, V), m.where(sel[V]), "%s selects index values `%s = %s` but never takes their maximum: nothing bounds the content by max(%s) + 1" % (q, V, ast.unparse(sel[V].value)[:40], V), detail="max(V) taken")
+    return r.done()
+
+
+def rule_py_byte_lengths(rep, floor=2):
+    r = rep.rule("UNIT.py-byte-lengths", "where the Python layer builds a ListArray over a byte buffer (`ListArray64(starts, stops, NumpyArray(B.view('u1')))` with `stops = starts + <lengths of X>`), "
+                 "the lengths are measured on the stored buffer itself (X is B): starts are byte offsets into B, so lengths taken from the un-encoded text (characters, not UTF-8 bytes) cut every non-ASCII string short", floor=floor)
+    for rel in [x for x in pf.all_modules() if "generated_parser" not in x]:
+        m = pf.module(rel)
+        k = 0
+        for c in ast.walk(m.tree):
+            if not (isinstance(c, ast.Call) and (pf.dotted(c.func) or "").startswith("ak.layout.ListArray") and len(c.args) >= 3):
+                continue
+            views = [x for x in ast.walk(c.args[2]) if isinstance(x, ast.Call) and isinstance(x.func, ast.Attribute) and x.func.attr == "view" and isinstance(x.func.value, ast.Name)]
+            stops = [x.id for x in ast.walk(c.args[1]) if isinstance(x, ast.Name) and x.id not in ("ak", "np", "numpy")]
+            if not views or not stops:
+                continue
+            B = views[0].func.value.id
+            fd = _owner_func(c)
+            # the reaching definition of stops: the last assignment before the constructor
+            defs = [s_ for s_ in ast.walk(fd) if isinstance(s_, ast.Assign) and any(isinstance(t, ast.Name) and t.id == stops[-1] for t in s_.targets) and s_.lineno < c.lineno]
+            if not defs:
+                continue
+            d = max(defs, key=lambda s_: s_.lineno).value
+            if not isinstance(d, ast.BinOp):
+                continue
+            measured = [x.args[0].id for x in ast.walk(d) if isinstance(x, ast.Call) and x.args and isinstance(x.args[0], ast.Name) and isinstance(x.func, ast.Attribute) and x.func.attr in ("str_len", "len")]
+            k += 1
+            r.check(measured == [B] or not measured, "%s:%s#listarray%d" % (rel, getattr(fd, "name", "<module>"), k), m.where(c), "%s stores the bytes of `%s` but measures the item lengths on `%s`: offsets and lengths are in different units" % (rel, B, measured), detail="lengths of the stored buffer")
+    return r.done()
+
+
+def rule_py_offset_units(rep, floor=2):
+    r = rep.rule("UNIT.py-offset-accumulator", "a running offset that is added to a position found inside a buffer T (`best = start + out`, out = argmin/argmax/searchsorted(T, ...)) advances by len(T), the buffer the position was found in: "
+                 "advancing by the length of something else (the partition's number of lists instead of its flattened buffer) shifts every later position", floor=floor)
+    for rel in [x for x in pf.all_modules() if "generated_parser" not in x]:
+        m = pf.module(rel)
+        for fd in ast.walk(m.tree):
+            if not isinstance(fd, ast.FunctionDef):
+                continue
+            found = {}    # out var -> buffer name
+            for s_ in ast.walk(fd):
+                if isinstance(s_, ast.Assign) and len(s_.targets) == 1 and isinstance(s_.targets[0], ast.Name) and isinstance(s_.value, ast.Call) and isinstance(s_.value.func, ast.Attribute) \
+                        and s_.value.func.attr in ("argmin", "argmax", "searchsorted", "nonzero", "argsort") and s_.value.args and isinstance(s_.value.args[0], ast.Name):
+                    found[s_.targets[0].id] = s_.value.args[0].id
+            if not found:
+                continue
+            k = 0
+            for b in ast.walk(fd):
+                if not (isinstance(b, ast.BinOp) and isinstance(b.op, ast.Add)):
+                    continue
+                sides = [b.left, b.right]
+                outs = [x for x in sides if isinstance(x, ast.Name) and x.id in found]
+                accs = [x for x in sides if x not in outs]
+                if len(outs) != 1 or len(accs) != 1:
+                    continue
+                acc = ast.unparse(accs[0])
+                T = found[outs[0].id]
+                # the loop that binds T
+                loop = next((p_ for p_ in pf.parent_chain(b) if isinstance(p_, ast.For) and T in {x.id for x in ast.walk(p_.target) if isinstance(x, ast.Name)}), None)
+                if loop is None:
+                    continue
+                outer = next((p_ for p_ in pf.parent_chain(loop) if isinstance(p_, ast.For)), loop)
+                for a_ in ast.walk(outer):
+                    if isinstance(a_, ast.AugAssign) and isinstance(a_.op, ast.Add) and ast.unparse(a_.target) == acc:
+                        k += 1
+                        inc = ast.unparse(a_.value)
+                        r.check(inc == "len(%s)" % T, "%s:%s:%s#%d" % (rel, fd.name, acc, k), m.where(a_), "%s in %s adds %s to a position found in %s but advances it by `%s`, not len(%s)" % (fd.name, rel, acc, T, inc, T), detail="advances by len(%s)" % T)
+    return r.done()
+
+
+def rule_py_numfields_sentinel(rep, floor=3):
+    r = rep.rule("SENTINEL.py-numfields", "`numfields` is -1 for a layout that contains no record and 0 for a record array without fields: a comparison of `.numfields` with a constant keeps the two apart "
+                 "(`< 0`, `>= 0`, `== -1`, `== 0`, `!= 0`, or a positive count) and never merges them (`<= 0`, `> 0`, `< 1`, `>= 1`)", floor=floor)
+    for rel in [x for x in pf.all_modules() if "generated_parser" not in x]:
+        m = pf.module(rel)
+        k = 0
+        for c in ast.walk(m.tree):
+            if isinstance(c, ast.Compare) and len(c.ops) == 1 and isinstance(c.left, ast.Attribute) and c.left.attr == "numfields" and isinstance(c.comparators[0], (ast.Constant, ast.UnaryOp)):
+                try:
+                    v = ast.literal_eval(c.comparators[0])
+                except Exception:
+                    continue
+                k += 1
+                op = type(c.ops[0]).__name__
+                merges = (op, v) in (("LtE", 0), ("Gt", 0), ("Lt", 1), ("GtE", 1), ("LtE", -1) if False else ("Gt", -2))
+                r.check(not merges, "%s:%s#%d" % (rel, getattr(_owner_func(c), "name", "<module>"), k), m.where(c), "%s tests `%s`: this puts record arrays without fields (numfields == 0) together with layouts that hold no record at all (numfields == -1)" % (rel, ast.unparse(c)), detail="sentinel kept apart")
+    return r.done()
+
+
+def rule_py_first_only_check(rep, floor=3):
+    r = rep.rule("ORDER.py-first-only-check", "in a loop that folds its items into an accumulator initialised to None (`if acc is None: acc = f(x) ... else: compare x with acc`), a test that rejects an item on the item's own properties "
+                 "(a conditional return/raise whose condition does not mention acc) is not placed inside the `acc is None` arm: there it only applies to whichever item happens to come first, and the answer depends on argument order", floor=floor)
+    table = load_table("py_firstonly_exceptions.json")
+    for rel in [x for x in pf.all_modules() if "generated_parser" not in x]:
+        m = pf.module(rel)
+        k = 0
+        for lp in ast.walk(m.tree):
+            if not isinstance(lp, ast.For):
+                continue
+            for n in ast.walk(lp):
+                if not (isinstance(n, ast.If) and isinstance(n.test, ast.Compare) and len(n.test.ops) == 1 and isinstance(n.test.ops[0], ast.Is) and isinstance(n.test.left, ast.Name)
+                        and isinstance(n.test.comparators[0], ast.Constant) and n.test.comparators[0].value is None):
+                    continue
+                acc = n.test.left.id
+                sets = any(isinstance(a_, ast.Assign) and any(isinstance(t, ast.Name) and t.id == acc for t in a_.targets) for st in n.body for a_ in ast.walk(st))
+                if not sets or not n.orelse:
+                    continue
+                k += 1
+                bad = None
+                for st in n.body:
+                    for c in ast.walk(st):
+                        if isinstance(c, ast.If) and any(isinstance(x, (ast.Return, ast.Raise)) for b_ in c.body for x in ast.walk(b_)) and acc not in {x.id for x in ast.walk(c.test) if isinstance(x, ast.Name)}:
+                            bad = c
+                tk = "%s:%s:%s" % (rel, getattr(_owner_func(lp), "name", "<module>"), acc)
+                if bad is not None and tk in table:
+                    r.excepted(tk, table[tk])
+                    r.ok(tk)
+                    continue
+                r.check(bad is None, "%s:%s:%s#%d" % (rel, getattr(_owner_func(lp), "name", "<module>"), acc, k), m.where(bad or n), "%s: inside `if %s is None:` the test `%s` rejects an item on its own properties, so it is applied to the first item only" % (
+                    rel, acc, ast.unparse(bad.test)[:70] if bad else ""), detail="item checks outside the first-item arm")
     return r.done()
